@@ -552,4 +552,93 @@ theorem itemLines_node (cfg : Cfg) (col : Nat) (hcol : col < 4) (t : Str) (kids 
   simp only [lns_length] at key
   simpa [lns, lnsO, itemBuf] using key
 
+/-! ### The parse -/
+
+mutual
+/-- gas that suffices for the item of `o` / for the list of `os` (`K = cfg.types.length + 4`) -/
+def needO (K : Nat) : O → Nat
+  | .node _ kids => needL K kids + K
+def needL (K : Nat) : List O → Nat
+  | [] => 0
+  | o :: os => needO K o + needL K os + 1
+end
+
+/-- what is asked of the token-type list: `List` is consulted before `Table` and `Paragraph` -/
+structure ListCfg (cfg : Cfg) (pre post : List BTok) : Prop where
+  types : cfg.types = pre ++ .list :: post
+  nl : .list ∉ pre
+  np : .paragraph ∉ pre
+  nt : .table ∉ pre
+  par : .paragraph ∈ post
+
+/-- the nested `tokenize_block` of the item of `o` -/
+def ItemClaim (cfg : Cfg) (K : Nat) (o : O) : Prop :=
+  ∀ gas, needO K o ≤ gas → ∀ (n : Nat) (st : St),
+    tokenizeBlock cfg gas (itemBuf n o) n st = .ok ({ entries := expInner n o, loose := false }, st)
+
+/-- `List.read` entered on the first line of `os` (no leader yet), or re-entered on a later sibling (leader "-",
+    the marker handed on by the previous `ListItem.read`) -/
+def LdNm (col : Nat) (os : List O) (ld : Option Str) (nm : Option (Nat × Nat × Str × Str)) : Prop :=
+  (ld = none ∧ nm = none) ∨ (ld = some ['-'] ∧ nm = nextOf col os)
+
+def ListClaim (cfg : Cfg) (K : Nat) (os : List O) : Prop :=
+  ∀ col, col < 4 → ∀ gas, needL K os ≤ gas → ∀ (pre : List Line) (start : Nat) (st : St) (acc : List Item) ld nm, LdNm col os ld nm →
+    readList cfg gas ⟨pre ++ lns col (start + pre.length) os, pre.length, start⟩ st ld nm acc =
+      .ok (acc.reverse ++ expItems col (start + pre.length) os,
+           ⟨pre ++ lns col (start + pre.length) os, pre.length + size os, start⟩, st)
+
+theorem expItem_eq (col n : Nat) (o : O) : expItem col n o = .mk (expInner n o) false col (col + 2) ['-'] n n := by
+  cases o; rfl
+
+theorem outline_list_step (cfg : Cfg) (K : Nat) (o : O) (os : List O) (ho : okO o = true) (hos : oks os = true)
+    (hI : ItemClaim cfg K o) (hL : os ≠ [] → ListClaim cfg K os) : ListClaim cfg K (o :: os) := by
+  intro col hcol gas hg pre start st acc ld nm hln
+  cases o with
+  | node t kids =>
+  simp only [okO, Bool.and_eq_true] at ho
+  obtain ⟨g, rfl⟩ : ∃ g, gas = g + 1 := ⟨gas - 1, by simp only [needL] at hg; omega⟩
+  have hg1 : needO K (.node t kids) ≤ g := by simp only [needL] at hg; omega
+  have hg2 : needL K os ≤ g := by simp only [needL] at hg; omega
+  have hprev : nm = none ∨ nm = some (markerOf col t) := by
+    rcases hln with ⟨_, h⟩ | ⟨_, h⟩
+    · exact Or.inl h
+    · exact Or.inr h
+  have hil := itemLines_node cfg col hcol t kids os ho.1 ho.2 hos pre start nm hprev
+  have htok := hI g hg1 (start + pre.length) st
+  -- the recursive call on the siblings
+  have hrec : os ≠ [] → ∀ acc', readList cfg g
+      ⟨pre ++ lns col (start + pre.length) (.node t kids :: os), pre.length + (size kids + 1), start⟩ st (some ['-']) (nextOf col os) acc' =
+      .ok (acc'.reverse ++ expItems col (start + pre.length + sizeO (.node t kids)) os,
+           ⟨pre ++ lns col (start + pre.length) (.node t kids :: os), pre.length + size (.node t kids :: os), start⟩, st) := by
+    intro hne acc'
+    have := hL hne col hcol g hg2 (pre ++ lnsO col (start + pre.length) (.node t kids)) start st acc' (some ['-']) (nextOf col os) (Or.inr ⟨rfl, rfl⟩)
+    simp only [List.length_append, lnsO_length, ← Nat.add_assoc, List.append_assoc] at this
+    simp only [lns, size, sizeO, ← Nat.add_assoc] at this ⊢
+    exact this
+  simp only [readList, hil, htok]
+  have hsm : sameMarkerType ['-'] ['-'] = true := by decide
+  have hstop : ∀ (fwEnd : FW), (Res.ok ((match (expItem col (start + pre.length) (.node t kids) :: acc) with
+        | .mk inner loose i p l n g :: rest => Item.mk inner (decide (inner.length > 1) && loose) i p l n g :: rest
+        | [] => []).reverse, fwEnd, st) : Res (List Item × FW × St)) =
+      .ok (acc.reverse ++ [expItem col (start + pre.length) (.node t kids)], fwEnd, st) := by
+    intro fwEnd; simp [expItem]
+  have hitem : Item.mk (expInner (start + pre.length) (.node t kids)) false col (col + 2) ['-'] (start + pre.length) (start + pre.length) =
+      expItem col (start + pre.length) (.node t kids) := (expItem_eq _ _ _).symm
+  simp only [hitem]
+  cases os with
+  | nil =>
+    simp only [nextOf, expItems, size, sizeO, Nat.add_zero]
+    rcases hln with ⟨rfl, _⟩ | ⟨rfl, _⟩
+    · exact hstop _
+    · simp only [hsm, Bool.not_true, Bool.false_eq_true, if_false]; exact hstop _
+  | cons o' os' =>
+    have hr := hrec (by simp)
+    simp only [expItems]
+    rcases hln with ⟨rfl, _⟩ | ⟨rfl, _⟩
+    · simp only [nextOf] at hr ⊢
+      rw [hr]; simp [expItems]
+    · simp only [hsm, Bool.not_true, Bool.false_eq_true, if_false]
+      simp only [nextOf] at hr ⊢
+      rw [hr]; simp [expItems]
+
 end Mistletoe.Block
